@@ -32,6 +32,8 @@ type replayFile struct {
 	Fns       map[string]map[string]uint64 `json:"fns"`
 	Params    map[string]int               `json:"params"`
 	Failed    map[string]string            `json:"failed,omitempty"`
+	Sample    int                          `json:"sample,omitempty"`
+	MustReach []string                     `json:"must_reach,omitempty"`
 	Decisions string                       `json:"decisions,omitempty"`
 }
 
@@ -173,6 +175,9 @@ func runNative(repo, verif, prop, pkgPath string, hs []*HarnessFile, prelude str
 			}
 			rf := modelToReplay(v.Model, r.Entry, r.Harness, pkgPath, prop, r.Params)
 			rf.Failed = map[string]string{"label": v.Label, "kind": v.Kind, "msg": v.Msg, "site": v.Site}
+			if v.Kind == "unreachable" {
+				rf.Sample = 4000
+			}
 			rf.Decisions = v.Decisions
 			os.MkdirAll(replayDir, 0o755)
 			pth := filepath.Join(replayDir, fmt.Sprintf("%s-%s-%d.json", r.Entry, sanitize(v.Label), seen[key]))
@@ -259,7 +264,11 @@ func runNative(repo, verif, prop, pkgPath string, hs []*HarnessFile, prelude str
 			v := j.v
 			conf := false
 			if oc != nil && oc.began {
-				if v.Kind == "assert" {
+				if v.Kind == "unreachable" {
+					// statistical confirmation of the solver's "unreachable": thousands of native runs with real
+					// randomness never hit the label, while they do hit others
+					conf = !oc.reached[v.Label] && len(oc.reached) > 0
+				} else if v.Kind == "assert" {
 					for _, f := range oc.failed {
 						if f == v.Label {
 							conf = true
